@@ -1,0 +1,33 @@
+//go:build verif
+
+package fastforward
+
+import (
+	"fmt"
+
+	"github.com/IrineSistiana/mosdns/v5/pkg/upstream"
+	"go.uber.org/zap"
+)
+
+// NewForwardWithUpstreams builds a Forward over caller supplied upstreams
+// (verification harness only). tags[i] may be empty.
+func NewForwardWithUpstreams(concurrent int, us []upstream.Upstream, tags []string) (*Forward, error) {
+	f := &Forward{
+		args:         &Args{Concurrent: concurrent},
+		logger:       zap.NewNop(),
+		tag2Upstream: make(map[string]*upstreamWrapper),
+	}
+	for i, u := range us {
+		cfg := UpstreamConfig{Addr: fmt.Sprintf("verif-upstream-%d", i)}
+		if i < len(tags) {
+			cfg.Tag = tags[i]
+		}
+		uw := newWrapper(i, cfg, "verif")
+		uw.u = u
+		f.us = append(f.us, uw)
+		if len(cfg.Tag) > 0 {
+			f.tag2Upstream[cfg.Tag] = uw
+		}
+	}
+	return f, nil
+}
